@@ -34,11 +34,11 @@ def axis_values(n, start=0.0, step=1.0, descending=False, nonuniform=False):
 
 def cf1d(ny=3, nx=4, *, bounds=None, as_coords=True, descending_lat=False, descending_lon=False,
          nonuniform=False, lat_name='lat', lon_name='lon', ydim=None, xdim=None, time=2, depth=0,
-         extra=True, detect='units', bounds_shrink=0.25):
+         extra=True, detect='units', bounds_shrink=0.25, origin=(100.0, -10.0), step=(2.0, 1.0)):
     ydim = ydim or lat_name
     xdim = xdim or lon_name
-    lat = axis_values(ny, -10.0, 1.0, descending_lat, nonuniform)
-    lon = axis_values(nx, 100.0, 2.0, descending_lon, nonuniform)
+    lat = axis_values(ny, origin[1], step[1], descending_lat, nonuniform)
+    lon = axis_values(nx, origin[0], step[0], descending_lon, nonuniform)
     lat_attrs = {'units': 'degrees_north'} if detect == 'units' else ({'standard_name': 'latitude'} if detect == 'standard_name' else {'axis': 'Y'})
     lon_attrs = {'units': 'degrees_east'} if detect == 'units' else ({'standard_name': 'longitude'} if detect == 'standard_name' else {'axis': 'X'})
     data_vars = {}
